@@ -36,6 +36,7 @@ type SpecCtx struct {
 	bound    map[string]string // quantifier-bound variables -> sort
 	clause   *Clause
 	inOld    bool
+	iterKey  string // ghost key of the map iteration of the loop in scope (for visited())
 	callInfo *callInfo
 }
 
